@@ -247,7 +247,7 @@ func (e announceTickEvent) apply(s *state) {
 			continue
 		}
 		go s.sched.announce(
-			ctrl.dispatcher.Digest(), ctrl.dispatcher.InfoHash(), ctrl.dispatcher.Complete())
+			ctrl.dispatcher.Digest(), ctrl.dispatcher.InfoHash(), ctrl.dispatcher.Complete(), false)
 		break
 	}
 	// Re-enqueue any torrents we pulled off and ignored, else we would never
@@ -262,6 +262,9 @@ func (e announceTickEvent) apply(s *state) {
 type announceResultEvent struct {
 	infoHash core.InfoHash
 	peers    []*core.PeerInfo
+
+	// immediate is set for announces which bypassed the announce queue.
+	immediate bool
 }
 
 // apply selects new peers returned via an announce response to open connections to
@@ -275,7 +278,9 @@ func (e announceResultEvent) apply(s *state) {
 		s.log("hash", e.infoHash).Info("Dispatcher closed after announce response received")
 		return
 	}
-	s.announceQueue.Ready(e.infoHash)
+	if !e.immediate {
+		s.announceQueue.Ready(e.infoHash)
+	}
 	if ctrl.dispatcher.Complete() {
 		// Torrent is already complete, don't open any new connections.
 		return
@@ -303,12 +308,17 @@ func (e announceResultEvent) apply(s *state) {
 type announceErrEvent struct {
 	infoHash core.InfoHash
 	err      error
+
+	// immediate is set for announces which bypassed the announce queue.
+	immediate bool
 }
 
 // apply marks the dispatcher as ready to announce again.
 func (e announceErrEvent) apply(s *state) {
 	s.log("hash", e.infoHash).Errorf("Error announcing: %s", e.err)
-	s.announceQueue.Ready(e.infoHash)
+	if !e.immediate {
+		s.announceQueue.Ready(e.infoHash)
+	}
 }
 
 // newTorrentEvent occurs when a new torrent was requested for download.
@@ -365,7 +375,7 @@ func (e newTorrentEvent) apply(s *state) {
 	ctrl.errors = append(ctrl.errors, e.errc)
 
 	// Immediately announce new torrents.
-	go s.sched.announce(ctrl.dispatcher.Digest(), ctrl.dispatcher.InfoHash(), ctrl.dispatcher.Complete())
+	go s.sched.announce(ctrl.dispatcher.Digest(), ctrl.dispatcher.InfoHash(), ctrl.dispatcher.Complete(), true)
 }
 
 // dispatcherCompleteEvent occurs when a dispatcher finishes downloading its torrent.
@@ -406,7 +416,7 @@ func (e dispatcherCompleteEvent) apply(s *state) {
 	s.sched.netevents.Produce(networkevent.TorrentCompleteEvent(infoHash, s.sched.pctx.PeerID))
 
 	// Immediately announce completed torrents.
-	go s.sched.announce(ctrl.dispatcher.Digest(), ctrl.dispatcher.InfoHash(), true)
+	go s.sched.announce(ctrl.dispatcher.Digest(), ctrl.dispatcher.InfoHash(), true, true)
 }
 
 // peerRemovedEvent occurs when a dispatcher removes a peer with a closed
